@@ -1,6 +1,7 @@
-(* C17 -- Identifier algebra is exact (codec level; the driver's session filter is in the wire suites). *)
-From WT.Model Require Import Base Varint Ids Frame Wire.
-From WT.Proofs Require Import VarintP FrameP WireP.
+(* C17 -- Identifier algebra is exact; foreign-session traffic is never delivered (codec level and the
+   driver's session filter). *)
+From WT.Model Require Import Base Varint Ids Frame Wire Filter.
+From WT.Proofs Require Import VarintP FrameP WireP FilterP.
 
 (* a session id is accepted exactly when it names a client-initiated bidirectional stream *)
 Theorem C17_session_id_accepted_iff : forall x, session_ok x = true <-> x mod 4 = 0.
@@ -47,6 +48,40 @@ Theorem C17_datagram_session :
   forall sid p, session_ok sid = true -> sid <= varint_max ->
     drv_dgram_read (drv_dgram_write sid p) = Val (sid, vsize (q_from_session sid), p).
 Proof. exact drv_dgram_roundtrip. Qed.
+
+(* ---- the driver's session filter (Driver::accept_uni / accept_bi / receive_datagram) ---- *)
+(* whatever the channel holds: a call returns only an item of the caller's session ... *)
+Theorem C17_accept_returns_own_session :
+  forall sid ch x, returned (accept_loop sid ch) = Some x -> snd x = sid.
+Proof. exact accept_returns_own_session. Qed.
+(* ... refuses only items of other sessions, keeps the order and touches nothing behind the returned item ... *)
+Theorem C17_accept_refuses_only_foreign :
+  forall sid ch, Forall (fun y => snd y <> sid) (discarded (accept_loop sid ch)).
+Proof. exact accept_refuses_only_foreign. Qed.
+Theorem C17_accept_conserves :
+  forall sid ch, ch = discarded (accept_loop sid ch)
+                      ++ match returned (accept_loop sid ch) with Some x => [x] | None => [] end
+                      ++ remaining (accept_loop sid ch).
+Proof. exact accept_conserves. Qed.
+(* ... and cannot skip a waiting item of its own session *)
+Theorem C17_accept_finds_own :
+  forall sid ch, (exists x, In x ch /\ snd x = sid) -> returned (accept_loop sid ch) <> None.
+Proof. exact accept_finds_own. Qed.
+(* any number of calls: delivered = the consumed items of the session, refused = the other consumed items *)
+Theorem C17_calls_deliver_exactly_own :
+  forall n sid ch g d r, accept_n n sid ch = (g, d, r) ->
+    exists consumed, ch = consumed ++ r /\ g = own sid consumed /\ d = foreign sid consumed.
+Proof. exact accept_n_spec. Qed.
+Theorem C17_foreign_never_delivered :
+  forall n sid ch g d r, accept_n n sid ch = (g, d, r) ->
+    Forall (fun y => snd y = sid) g /\ Forall (fun y => snd y <> sid) d.
+Proof. exact accept_n_never_delivers_foreign. Qed.
+Theorem C17_refusal_code : discard_code = 966049156.   (* 0x3994bd84 WEBTRANSPORT_BUFFERED_STREAM_REJECTED *)
+Proof. reflexivity. Qed.
+
+Example C17_filter_example :
+  accept_n 2 0 [(3, 4); (7, 0); (11, 8); (15, 0); (19, 0)] = ([(7, 0); (15, 0)], [(3, 4); (11, 8)], [(19, 0)]).
+Proof. vm_compute. reflexivity. Qed.
 
 Example C17_example :
   session_ok 4611686018427387900 = true /\ session_ok 4611686018427387901 = false /\
